@@ -33,6 +33,23 @@ func vInListExact(list []string, s string) bool {
 func VH_lexID(a []string) {
 	p, m, c := vAtoi(a[0]), vAtoi(a[1]), vAtoi(a[2])
 	buf := vBytes(p+m+c, "buf")
+	vReachablePrefix(buf, p)
+	vLexIDBody(a, buf, p, m, c)
+	if vReplaying() && vFailedAny() {
+		vLiftLex(buf, "api")
+	}
+}
+
+// the bytes before the scanner's index are ones a scan can have consumed without emitting
+// anything the step depends on: spaces and open parentheses. Every such (buffer, index) state
+// is reached by scanning the buffer itself from the start.
+func vReachablePrefix(buf string, p int) {
+	for i := 0; i < p; i++ {
+		vAssume(vOr(buf[i] == ' ', buf[i] == '('))
+	}
+}
+
+func vLexIDBody(a []string, buf string, p, m, c int) {
 	for i := p; i < p+m; i++ {
 		vAssume(vIsIDChar(buf[i]))
 	}
@@ -136,6 +153,7 @@ func VH_lexRef(a []string) {
 		prefix = "DocumentRef-"
 	}
 	pre := vBytes(p, "pre")
+	vReachablePrefix(pre, p)
 	rest := vBytes(m+c, "rest")
 	for i := 0; i < m; i++ {
 		vAssume(vIsIDChar(rest[i]))
@@ -144,6 +162,13 @@ func VH_lexRef(a []string) {
 		vAssume(!vIsIDChar(rest[m]))
 	}
 	buf := pre + prefix + rest
+	vLexRefBody(a, buf, rest, prefix, p, which, m)
+	if vReplaying() && vFailedAny() {
+		vLiftLex(buf, "api")
+	}
+}
+
+func vLexRefBody(a []string, buf, rest, prefix string, p int, which string, m int) {
 	exp := &expressionStream{expression: buf, index: p}
 	exp.skipWhitespace()
 	tok := exp.parseToken()
@@ -176,11 +201,19 @@ func VH_lexOp(a []string) {
 	p, k, c := vAtoi(a[0]), vAtoi(a[1]), vAtoi(a[2])
 	op := vOps[k]
 	pre := vBytes(p, "pre")
+	vReachablePrefix(pre, p)
 	post := vBytes(c, "post")
 	if len(op) > 1 && c > 0 {
 		vAssume(!vIsIDChar(post[0])) // keyword glued to an id character: abstain
 	}
 	buf := pre + op + post
+	vLexOpBody(buf, pre, post, op, p)
+	if vReplaying() && vFailedAny() {
+		vLiftLex(buf, "api")
+	}
+}
+
+func vLexOpBody(buf, pre, post, op string, p int) {
 	exp := &expressionStream{expression: buf, index: p}
 	exp.skipWhitespace()
 	tok := exp.parseToken()
@@ -203,6 +236,14 @@ func VH_lexOp(a []string) {
 func VH_lexOther(a []string) {
 	p, c := vAtoi(a[0]), vAtoi(a[1])
 	buf := vBytes(p+1+c, "buf")
+	vReachablePrefix(buf, p)
+	vLexOtherBody(buf, p)
+	if vReplaying() && vFailedAny() {
+		vLiftLex(buf, "api")
+	}
+}
+
+func vLexOtherBody(buf string, p int) {
 	b := buf[p]
 	vAssume(!vIsIDChar(b))
 	vAssume(b != ' ')
